@@ -33,12 +33,13 @@ MACHINES = {
     "C13T": "sim.c13t",
     "C16T": "sim.c16t",
     "C09T": "sim.c09t",
+    "C15T": "sim.c15t",
 }
 # a property's check = one or more machines ("parts")
 PARTS = {
     "C08": ["C08"],
     "C13": ["C13", "C13T"],
-    "C15": ["C15"],
+    "C15": ["C15", "C15T"],
     "C16": ["C16", "C16T"],
     "C14": ["C14"],
 }
@@ -53,6 +54,7 @@ TIERS = {
     "C13T": {"quick": (1500, 200), "thorough": (60000, 2400)},
     "C16T": {"quick": (2000, 200), "thorough": (100000, 2400)},
     "C09T": {"quick": (200, 200), "thorough": (12000, 2400)},
+    "C15T": {"quick": (1500, 200), "thorough": (60000, 2400)},
 }
 
 
@@ -175,7 +177,7 @@ def replay_file(path):
     with open(path, encoding="utf8") as fh:
         doc = json.load(fh)
     prop = doc["property"]
-    if prop == "C09":
+    if prop == "C09" and doc.get("machine") not in MACHINES:
         from sim import c09
 
         return c09.replay(doc, path)
